@@ -33,7 +33,7 @@ Section Spec.
   Variable chk : bool.
   Inductive Expands : list str -> str -> list obj -> Prop :=
   | Ex_file : forall stack file objs out,
-      fs_get fs (nrm cwd file) = Ok objs ->
+      fs_get fs (fs_key (nrm cwd file)) = Ok objs ->
       (chk = true -> ~ In (nrm cwd file) stack) ->
       ExpandsL (stack ++ [nrm cwd file]) (Some (dirname (nrm cwd file))) objs out ->
       Expands stack file out
@@ -63,7 +63,7 @@ Section Spec.
 
   (* the include graph on normalised absolute names *)
   Definition edge (n m : str) : Prop :=
-    exists objs x, fs_get fs n = Ok objs /\ In x (targets objs)
+    exists objs x, fs_get fs (fs_key n) = Ok objs /\ In x (targets objs)
                    /\ m = nrm cwd (resolve (Some (dirname n)) x).
 
   Fixpoint chain (l:list str) : Prop :=
@@ -83,7 +83,7 @@ Section Spec.
 
   (* the file exists, parses, and its own include lines are all well-formed *)
   Definition clean (n:str) : Prop :=
-    exists objs t, fs_get fs n = Ok objs /\ walks isc (fun _ => Ok []) None objs = Ok t.
+    exists objs t, fs_get fs (fs_key n) = Ok objs /\ walks isc (fun _ => Ok []) None objs = Ok t.
 
   (* what an IncludeCycle report must look like: the text names a chain of include edges that
      starts with [start] and whose last element repeats an earlier one *)
